@@ -178,6 +178,8 @@ val hd : 'a1 -> 'a1 list -> 'a1
 
 val nth : nat -> 'a1 list -> 'a1 -> 'a1
 
+val last : 'a1 list -> 'a1 -> 'a1
+
 val concat : 'a1 list list -> 'a1 list
 
 val map : ('a1 -> 'a2) -> 'a1 list -> 'a2 list
@@ -245,6 +247,8 @@ type car = __
 val fpos : ops -> positive -> car
 
 val fz : ops -> z -> car
+
+val fq : ops -> q -> car
 
 val fpow : ops -> car -> nat -> car
 
@@ -328,32 +332,7 @@ val idx_eqb : z list -> z list -> bool
 
 val lookup : (z list * car) list -> z list -> car
 
-val scan : ('a1 -> 'a2 -> 'a1 * 'a3) -> 'a1 -> 'a2 list -> 'a1 * 'a3 list
-
-val rollout : ('a1 -> 'a1) -> nat -> bool -> 'a1 -> 'a1 list
-
-val repeat_fn : ('a1 -> 'a1) -> nat -> 'a1 -> 'a1
-
-type 'x auxarg =
-| AuxConst of 'x
-| AuxSeq of 'x list
-
-val aux_seq : nat -> bool -> 'a1 auxarg -> 'a1 list option
-
-val rollout_aux :
-  ('a1 -> 'a2 -> 'a1) -> nat -> bool -> bool -> 'a1 -> 'a2 auxarg -> 'a1 list
-  option
-
-val repeat_aux :
-  ('a1 -> 'a2 -> 'a1) -> nat -> bool -> 'a1 -> 'a2 auxarg -> 'a1 option
-
-val dynamic_slice : 'a1 list -> nat -> nat -> 'a1 list
-
-val stack_sub : 'a1 list -> nat -> 'a1 list list option
-
-val all_same : nat list -> bool
-
-val stack_sub_tree : 'a1 list list -> nat -> 'a1 list list list option
+val root_arg : ops -> car -> car -> car -> car -> car
 
 val etdrk1_integrand_1 : ops -> car -> car -> car -> car
 
@@ -404,6 +383,97 @@ val etdrk4_step :
 val etdrk0_step : ops -> ('a1 -> car) -> ('a1 -> car) -> 'a1 -> car
 
 val order_dispatch : z -> nat option
+
+val lift1 : ops -> (car -> car) -> car option -> car option
+
+val lift2 :
+  ops -> (car -> car -> car) -> car option -> car option -> car option
+
+val odiv_opt : ops -> car option -> car option -> car option
+
+val oinv_opt : ops -> car option -> car option
+
+val oeqb_opt : ops -> car option -> car option -> bool
+
+val optOps : ops -> ops
+
+val num_e1 : ops -> car -> car -> car
+
+val num_e2 : ops -> car -> car -> car
+
+val num_a3 : ops -> car -> car -> car
+
+val num_b3 : ops -> car -> car -> car
+
+val num_c3 : ops -> car -> car -> car
+
+val inv_pow : ops -> car -> nat -> car
+
+val fst_a : ops -> ('a1 -> car) -> ('a1 -> car) -> 'a1 -> car
+
+val fst_b3 :
+  ops -> ('a1 -> car) -> ('a1 -> car) -> ('a1 -> car) -> (('a1 -> car) -> 'a1
+  -> car) -> 'a1 -> car
+
+val fst_b4 :
+  ops -> ('a1 -> car) -> ('a1 -> car) -> ('a1 -> car) -> (('a1 -> car) -> 'a1
+  -> car) -> 'a1 -> car
+
+val fst_c4 :
+  ops -> ('a1 -> car) -> ('a1 -> car) -> ('a1 -> car) -> ('a1 -> car) -> ('a1
+  -> car) -> (('a1 -> car) -> 'a1 -> car) -> 'a1 -> car
+
+val forced1 : ops -> ('a1 -> car) -> ('a1 -> car) -> 'a1 -> car
+
+val forced2 :
+  ops -> ('a1 -> car) -> ('a1 -> car) -> ('a1 -> car) -> (('a1 -> car) -> 'a1
+  -> car) -> 'a1 -> car
+
+val forced3 :
+  ops -> ('a1 -> car) -> ('a1 -> car) -> ('a1 -> car) -> ('a1 -> car) -> ('a1
+  -> car) -> ('a1 -> car) -> (('a1 -> car) -> 'a1 -> car) -> 'a1 -> car
+
+val forced4 :
+  ops -> ('a1 -> car) -> ('a1 -> car) -> ('a1 -> car) -> ('a1 -> car) -> ('a1
+  -> car) -> ('a1 -> car) -> ('a1 -> car) -> ('a1 -> car) -> (('a1 -> car) ->
+  'a1 -> car) -> 'a1 -> car
+
+val all_integrands : ops -> (car -> car -> car -> car) list
+
+val num_form : z -> z -> car -> car -> car -> car * nat
+
+val integrand_index : z -> z -> nat
+
+val test_nl_f : nat -> (nat -> car) -> (nat -> car) -> nat -> car
+
+val run_c19 : z -> q list -> q list
+
+val scan : ('a1 -> 'a2 -> 'a1 * 'a3) -> 'a1 -> 'a2 list -> 'a1 * 'a3 list
+
+val rollout : ('a1 -> 'a1) -> nat -> bool -> 'a1 -> 'a1 list
+
+val repeat_fn : ('a1 -> 'a1) -> nat -> 'a1 -> 'a1
+
+type 'x auxarg =
+| AuxConst of 'x
+| AuxSeq of 'x list
+
+val aux_seq : nat -> bool -> 'a1 auxarg -> 'a1 list option
+
+val rollout_aux :
+  ('a1 -> 'a2 -> 'a1) -> nat -> bool -> bool -> 'a1 -> 'a2 auxarg -> 'a1 list
+  option
+
+val repeat_aux :
+  ('a1 -> 'a2 -> 'a1) -> nat -> bool -> 'a1 -> 'a2 auxarg -> 'a1 option
+
+val dynamic_slice : 'a1 list -> nat -> nat -> 'a1 list
+
+val stack_sub : 'a1 list -> nat -> 'a1 list list option
+
+val all_same : nat list -> bool
+
+val stack_sub_tree : 'a1 list list -> nat -> 'a1 list list list option
 
 val rep : z list -> z -> z list
 
@@ -732,6 +802,18 @@ val sgn0 : ops -> z -> car
 
 val injection3d : ops -> car -> car -> z -> z -> nat -> z list -> car
 
+val in_bin : z -> z list -> bool
+
+val recon_scale : ops -> z -> car -> z list -> car
+
+val amplitude_q : ops -> z -> car -> z list -> car -> car
+
+val power_q : ops -> z -> car -> z list -> car -> car
+
+val bin_sum : ops -> z -> (z list * car) list -> car
+
+val bin_count : ops -> z -> (z list * car) list -> z
+
 val aff : z -> z -> z -> z
 
 val affx : z -> z -> z -> z
@@ -765,5 +847,9 @@ val run_term : q list -> q list
 val run_ops : z -> q list -> q list
 
 val run_c12 : z -> q list -> q list
+
+val take_modes : nat -> nat -> q list -> (z list * car) list
+
+val run_c17 : z -> q list -> q list
 
 val run : z -> q list -> q list
